@@ -135,9 +135,25 @@ func judgeC19(c c19Case) (string, string) {
 		}
 		return sel[p]
 	}}
+	// the change callback sees what the disk writer is handed: every selected entry and needed ancestor once
+	notes := &xfer.Notes{}
+	opt.NotifyHashed, opt.ContentHasher = notes.Handle, xfer.Hasher
 	res := xfer.Run(sfs, dst, opt, nil)
 	if res.TimedOut {
 		return "timeout", "transfer timed out"
+	}
+	if res.SendErr == nil && res.RecvErr == nil {
+		seen := map[string]int{}
+		for _, n := range notes.List {
+			if n.Kind != fsutil.ChangeKindDelete && n.Path != listingName {
+				seen[n.Path]++
+			}
+		}
+		for p, k := range seen {
+			if k > 1 {
+				return "applied-twice", fmt.Sprintf("%s was handed to the disk writer (and reported) %d times", p, k)
+			}
+		}
 	}
 	if res.SendErr != nil || res.RecvErr != nil {
 		return "transfer-failed", fmt.Sprintf("send=%v recv=%v", res.SendErr, res.RecvErr)
